@@ -519,6 +519,11 @@ func (s mRowSet) contains(k string) bool {
 	return false
 }
 
+// rowSetExplicitEmpty: unbounded ends travel as explicitly set, empty keys (start_key_closed ""
+// = from the first row, end_key_open "" = to the last; clients that fill in both members of a
+// range send exactly that) instead of unset members.
+var rowSetExplicitEmpty bool
+
 func (s mRowSet) toProto() *btpb.RowSet {
 	if s.all() {
 		return nil
@@ -534,6 +539,14 @@ func (s mRowSet) toProto() *btpb.RowSet {
 			rr.StartKey = &btpb.RowRange_StartKeyOpen{StartKeyOpen: []byte(g.start.key)}
 		case 2:
 			rr.StartKey = &btpb.RowRange_StartKeyClosed{StartKeyClosed: []byte(g.start.key)}
+		}
+		if rowSetExplicitEmpty {
+			if g.start.kind == 0 {
+				rr.StartKey = &btpb.RowRange_StartKeyClosed{StartKeyClosed: []byte{}}
+			}
+			if g.end.kind == 0 {
+				rr.EndKey = &btpb.RowRange_EndKeyOpen{EndKeyOpen: []byte{}}
+			}
 		}
 		switch g.end.kind {
 		case 1:
